@@ -615,25 +615,27 @@ def flow_shape(src, request, stream, observed, new_name='extracted_1'):
                 return 'extract-function-conditional-rebind' if name in f['out'] \
                     else 'extract-function-returns-unneeded-name'
             return None
+        if st is None:
+            return None
+        # root causes that stay first (a tree with the proposed fixes applied must not attribute a failure to a
+        # root cause that is gone): on which paths that jedi's flow analysis does not consider is the name still
+        # unbound when this statement starts?
+        true = Unbound(name, (), f['sel_nested'])
+        true.block(f['sel'], True, {'brk': [], 'cont': []})
+        if true.at.get(id(st)):
+            for variant in VARIANTS:
+                u = Unbound(name, variant, f['sel_nested'])
+                u.block(f['sel'], True, {'brk': [], 'cont': []})
+                if not u.at.get(id(st)):
+                    return VARIANT_SHAPE[variant[0]]
+        # the read itself is one that _find_inputs_and_outputs cannot see
         if isinstance(st, ast.AugAssign) and name in _stores(st.target):
             return 'extract-function-augmented-assignment-target'
-        if isinstance(st, (ast.Assign, ast.AnnAssign)) and st.value is not None and name in _stores(st) \
-                and name in _loads(st.value):
+        if isinstance(st, (ast.Assign, ast.AnnAssign, ast.AugAssign)) and st.value is not None \
+                and name in _stores(st) and name in _loads(st.value):
             return 'extract-function-self-referencing-assignment'
         if isinstance(st, ast.For) and name in _stores(st.target) and name in _loads(st.iter):
             return 'extract-function-self-referencing-assignment'
-        if st is None:
-            return None
-        # a plain read: on which paths that jedi's flow analysis does not consider is the name still unbound here?
-        true = Unbound(name, (), f['sel_nested'])
-        true.block(f['sel'], True, {'brk': [], 'cont': []})
-        if not true.at.get(id(st)):
-            return None                 # not explained by the data flow of the selection at all
-        for variant in VARIANTS:
-            u = Unbound(name, variant, f['sel_nested'])
-            u.block(f['sel'], True, {'brk': [], 'cont': []})
-            if not u.at.get(id(st)):
-                return VARIANT_SHAPE[variant[0]]
         return None
     # the entry function itself misses a value, or computes another one: an output was not handed back
     missing = f['needed_out'] - f['later_sibling_uses']
